@@ -5,7 +5,8 @@
    footprint (cells read, cells written) and an action on the store, threads = lists of
    operations, interleavings = schedules (list of thread numbers, as in Conc.v).
    Part 2: the cells of the library (per-instance state, class registries, and the three
-   pieces of class-level mutable state that existed before the repairs D23/D24) and the
+   pieces of class-level mutable state that existed before the repairs D23/D24, and the
+   collator's per-instance depth counter that existed before repair D29) and the
    TABLE [fp_of] giving the footprint of each operation family of the property, as a
    function of the structural facts that tools/genparams.py extracts from the Go sources
    (Params.v).  The table is the model; that the code's memory accesses stay inside the
@@ -146,26 +147,32 @@ Record facts := {
   f_registries_locked : bool;       (* every accessor holds its mutex around lookup+insert *)
   f_notation_shares_formatter : bool;
   f_notation_shares_parser : bool;
-  f_sorter_shares_collator : bool
+  f_sorter_shares_collator : bool;
+  f_collator_shares_depth : bool    (* a collator counts the traversal depth in a field of the instance
+                                       (instead of per call): using one collator is a write *)
 }.
 Definition current_facts : facts :=
   {| f_registries_locked := forallb (fun p => snd p) Params.registry_locked
                             && negb (Nat.eqb (length Params.registry_locked) 0);
      f_notation_shares_formatter := Params.notation_shares_formatter;
      f_notation_shares_parser := Params.notation_shares_parser;
-     f_sorter_shares_collator := Params.sorter_shares_collator |}.
+     f_sorter_shares_collator := Params.sorter_shares_collator;
+     f_collator_shares_depth := Params.collator_shares_depth |}.
 Definition repaired_facts : facts :=
   {| f_registries_locked := true; f_notation_shares_formatter := false;
-     f_notation_shares_parser := false; f_sorter_shares_collator := false |}.
-(* the tree before the repairs D23, D24 *)
+     f_notation_shares_parser := false; f_sorter_shares_collator := false;
+     f_collator_shares_depth := false |}.
+(* the tree before the repairs D23, D24, D29 *)
 Definition prefix_facts : facts :=
   {| f_registries_locked := true; f_notation_shares_formatter := true;
-     f_notation_shares_parser := true; f_sorter_shares_collator := true |}.
+     f_notation_shares_parser := true; f_sorter_shares_collator := true;
+     f_collator_shares_depth := true |}.
 Definition facts_eqb (a b : facts) : bool :=
   Bool.eqb (f_registries_locked a) (f_registries_locked b) &&
   Bool.eqb (f_notation_shares_formatter a) (f_notation_shares_formatter b) &&
   Bool.eqb (f_notation_shares_parser a) (f_notation_shares_parser b) &&
-  Bool.eqb (f_sorter_shares_collator a) (f_sorter_shares_collator b).
+  Bool.eqb (f_sorter_shares_collator a) (f_sorter_shares_collator b) &&
+  Bool.eqb (f_collator_shares_depth a) (f_collator_shares_depth b).
 
 (* a registry cell is only ever accessed inside the accessor's critical section *)
 Definition guarded (F : facts) (c : cell) : bool :=
@@ -240,15 +247,19 @@ Definition fp_of (F : facts) (d : opdesc) : fp cell :=
   let regs := reg_cells d in
   let sh := shared_cells F d in
   let cold := if od_cold d then regs else [] in
+  (* using a collator (the Set's own, or the agent of FRank) writes it only while it keeps its
+     depth counter in the instance *)
+  let collw := if f_collator_shares_depth F then coll else [] in
+  let auxw := if f_collator_shares_depth F then aux else [] in
   match od_fam d with
-  | FBuild   => {| reads := regs ++ sh;         writes := recv ++ coll ++ sh ++ cold |}
-  | FMutate  => {| reads := regs ++ sh;         writes := recv ++ coll ++ sh ++ cold |}
-  | FSearch  => {| reads := regs ++ recv ++ sh; writes := coll ++ sh ++ cold |}
-  | FSort    => {| reads := regs ++ sh;         writes := recv ++ aux ++ sh ++ cold |}
-  | FRank    => {| reads := regs ++ recv ++ sh; writes := aux ++ sh ++ cold |}
-  | FFormat  => {| reads := regs ++ recv ++ sh; writes := aux ++ sh ++ cold |}
-  | FParse   => {| reads := regs ++ sh;         writes := recv ++ aux ++ sh ++ cold |}
-  | FIterate => {| reads := regs ++ recv ++ sh; writes := aux ++ sh ++ cold |}
+  | FBuild   => {| reads := regs ++ sh;                 writes := recv ++ coll ++ sh ++ cold |}
+  | FMutate  => {| reads := regs ++ coll ++ sh;         writes := recv ++ collw ++ sh ++ cold |}
+  | FSearch  => {| reads := regs ++ recv ++ coll ++ sh; writes := collw ++ sh ++ cold |}
+  | FSort    => {| reads := regs ++ sh;                 writes := recv ++ aux ++ sh ++ cold |}
+  | FRank    => {| reads := regs ++ recv ++ aux ++ sh;  writes := auxw ++ sh ++ cold |}
+  | FFormat  => {| reads := regs ++ recv ++ sh;         writes := aux ++ sh ++ cold |}
+  | FParse   => {| reads := regs ++ sh;                 writes := recv ++ aux ++ sh ++ cold |}
+  | FIterate => {| reads := regs ++ recv ++ sh;         writes := aux ++ sh ++ cold |}
   end.
 
 (* the instances an operation is "on" in the sense of the property *)
